@@ -642,6 +642,28 @@ func effectOf(in ssa.Instruction) string {
 			if reportPure[calleeName(callee)] || effectFree(callee) {
 				return ""
 			}
+			// a callee that only fills in what it is handed (stores through a parameter) changes no state
+			// when the caller hands it an object it has just made
+			if idx, ok := storesOnlyThroughParams(callee); ok {
+				args := com.Args
+				fresh := len(args) == len(callee.Params)
+				for _, i := range idx {
+					if !fresh || i >= len(args) {
+						fresh = false
+						break
+					}
+					root := ClassifyAddr(args[i]).Root
+					if root == nil {
+						root = args[i]
+					}
+					if !Fresh(root, map[ssa.Value]bool{}) {
+						fresh = false
+					}
+				}
+				if fresh {
+					return ""
+				}
+			}
 			return "call of " + calleeName(callee)
 		}
 		if !com.IsInvoke() && isCallbackType(com.Value.Type()) {
@@ -1061,6 +1083,65 @@ func splitTuple(s string) []string {
 // without effect in the sense of effectOf. Functions without a body, and recursion, count as effectful.
 var effectFreeMemo = map[*ssa.Function]int{} // 1 in progress, 2 free, 3 not free
 
+// storesOnlyThroughParams: every effect of fn is a store into memory reached from one of its parameters;
+// the indices of those parameters.
+var storesOnlyMemo = map[*ssa.Function][]int{}
+var storesOnlyOK = map[*ssa.Function]int{}
+
+func storesOnlyThroughParams(fn *ssa.Function) ([]int, bool) {
+	switch storesOnlyOK[fn] {
+	case 1, 3:
+		return nil, false
+	case 2:
+		return storesOnlyMemo[fn], true
+	}
+	if fn == nil || len(fn.Blocks) == 0 {
+		return nil, false
+	}
+	storesOnlyOK[fn] = 1
+	set := map[int]bool{}
+	ok := true
+	for _, b := range fn.Blocks {
+		for _, in := range b.Instrs {
+			if effectOf(in) == "" {
+				continue
+			}
+			st, isStore := in.(*ssa.Store)
+			if !isStore {
+				ok = false
+				continue
+			}
+			root := ClassifyAddr(st.Addr).Root
+			p, isParam := root.(*ssa.Parameter)
+			if !isParam {
+				ok = false
+				continue
+			}
+			found := false
+			for i, q := range fn.Params {
+				if q == p {
+					set[i] = true
+					found = true
+				}
+			}
+			if !found {
+				ok = false
+			}
+		}
+	}
+	if !ok {
+		storesOnlyOK[fn] = 3
+		return nil, false
+	}
+	var idx []int
+	for i := range set {
+		idx = append(idx, i)
+	}
+	sort.Ints(idx)
+	storesOnlyOK[fn], storesOnlyMemo[fn] = 2, idx
+	return idx, true
+}
+
 func effectFree(fn *ssa.Function) bool {
 	switch effectFreeMemo[fn] {
 	case 1, 3:
@@ -1190,6 +1271,58 @@ func canonPosition(v ssa.Value) string {
 				vals[f] = Expr(sv)
 			}
 			return render(vals)
+		}
+		// an empty position handed to one function of the package that fills it in (lex.fillPosition(pos)):
+		// the fields are what that function stores through the parameter, in terms of the call's arguments
+		var filler *ssa.Call
+		fillers, idx := 0, -1
+		for _, r := range *x.Referrers() {
+			c, ok := r.(*ssa.Call)
+			if !ok {
+				continue
+			}
+			callee := c.Common().StaticCallee()
+			if callee == nil || callee.Pkg == nil || x.Parent() == nil || callee.Pkg != x.Parent().Pkg || calleeName(callee) == "pkg/errors.NewError" {
+				continue
+			}
+			for i, a := range c.Common().Args {
+				if a == ssa.Value(x) && len(callee.Params) == len(c.Common().Args) {
+					filler, idx = c, i
+					fillers++
+				}
+			}
+		}
+		if fillers == 1 {
+			callee := filler.Common().StaticCallee()
+			env := map[*ssa.Parameter]string{}
+			for i, p := range callee.Params {
+				env[p] = Expr(filler.Common().Args[i])
+			}
+			vals := map[string]string{}
+			ok := true
+			inlineEnv = append(inlineEnv, env)
+			for _, r := range *callee.Params[idx].Referrers() {
+				fa, isFA := r.(*ssa.FieldAddr)
+				if !isFA {
+					if _, isDbg := r.(*ssa.DebugRef); !isDbg {
+						ok = false
+					}
+					continue
+				}
+				f := fieldName(callee.Params[idx].Type(), fa.Field)
+				for _, r2 := range *fa.Referrers() {
+					if st, isSt := r2.(*ssa.Store); isSt && st.Addr == fa {
+						if _, dup := vals[f]; dup {
+							ok = false
+						}
+						vals[f] = Expr(st.Val)
+					}
+				}
+			}
+			inlineEnv = inlineEnv[:len(inlineEnv)-1]
+			if ok && len(vals) > 0 {
+				return render(vals)
+			}
 		}
 	}
 	return Expr(v)
